@@ -21,12 +21,11 @@ inductive DErr where
   /-- `errCycleDetected`; `path` = constructor nodes on the reported path -/
   | cycle (path : List Nat) (scope : Nat)
   | groupOpt
-  /-- `PanicError` holding the tagged panic value of execution `x` of `f` -/
+  /-- (no constructor for errors of foreign packages: after the repair of F10 dig wraps none)
+      `PanicError` holding the tagged panic value of execution `x` of `f` -/
   | panicErr (f x : Nat)
   /-- the `*UserErr` returned by execution `x` of `f` -/
   | user (f x : Nat)
-  /-- an error value of a foreign package (e.g. `*strconv.NumError`) -/
-  | foreign
   deriving Repr, Inhabited, DecidableEq
 
 namespace DErr
@@ -46,7 +45,6 @@ def unwrap : DErr → Option DErr
 def isDigHere : DErr → Bool
   | panicErr _ _ => false
   | user _ _ => false
-  | foreign => false
   | _ => true
 
 /-- `errors.As(err, &dig.Error)`: the first element of the chain that is a dig.Error -/
@@ -64,7 +62,6 @@ def firstDig : DErr → Option DErr
   | groupOpt => some groupOpt
   | panicErr _ _ => none
   | user _ _ => none
-  | foreign => none
 
 /-- `dig.RootCause`:
     `for ; errors.As(err,&de); err = errors.Unwrap(de) {}; if err == nil {return de}; return err`.
@@ -124,7 +121,7 @@ def kindName : DErr → String
   | ctorFailed _ => "ctorFailed" | argsFailed _ => "argsFailed" | missingDeps _ => "missingDeps"
   | paramSingle _ _ _ => "paramSingle" | paramGroup _ _ _ => "paramGroup"
   | missingTypes _ => "missingTypes" | cycle _ _ => "cycle" | groupOpt => "groupOpt"
-  | panicErr _ _ => "panicErr" | user _ _ => "user" | foreign => "foreign"
+  | panicErr _ _ => "panicErr" | user _ _ => "user"
 
 end DErr
 end Dig
